@@ -109,6 +109,12 @@ def gen_cases(rng, tier, ops):
                 if ops[n].get('inplace'):
                     sh = [(2, 3), (2, 1)][:len(classes)]
                 cases.append(gen_case(rng, n, ops, classes, [tuple(s) for s in sh]))
+                if len(classes) == 2 and not ops[n].get('inplace'):
+                    # a shapeless operand next to one with axes, the shapeless one masked as a whole; several draws
+                    # of the numbers where undefinedness depends on them
+                    for _rep in range(6 if n in cm.RESTRICTED else 1):
+                        cases.append(gen_case(rng, n, ops, classes, [(3,), ()], ['F', 'T']))
+                        cases.append(gen_case(rng, n, ops, classes, [(), (3,)], ['T', 'mix']))
         for _ in range(12000):
             cases.append(gen_case(rng, rng.choice(names), ops))
         cases.extend(alias_cases(rng, ops, names, 2))
